@@ -1,4 +1,5 @@
 """C02 - component lifecycle callbacks fire exactly once per attach/detach."""
+import collections
 import itertools
 
 from mc import kernel
@@ -240,6 +241,117 @@ def release_cases(tier):
     return out
 
 
+# -- E3: a component that moves itself to another entity in its on_remove -----
+@desper.event_handler('on_add', 'on_remove', 'ping')
+class Mover:
+    """on_remove attaches the component to the entity named in its plan (a
+    callback may call back into the world): detached from one entity and
+    attached to another, it is a listener again."""
+
+    def __init__(self, envx, label):
+        self.envx = envx
+        self.label = label
+        self.target = None
+
+    def __hash__(self):
+        return hash(self.label)
+
+    def on_add(self, entity, world):
+        self.envx.log.append((self.label, 'on_add', entity))
+
+    def on_remove(self, entity, world):
+        self.envx.log.append((self.label, 'on_remove', entity))
+        if self.target is not None:
+            target, self.target = self.target, None
+            world.add_component(target, self)
+
+    def ping(self, token):
+        self.envx.log.append((self.label, 'ping', token))
+
+
+MOVE_HOWS = ('remove', 'delete_now', 'deferred', 'replace_add',
+             'replace_create', 'clear_other_first')
+
+
+def move_cases():
+    return [(how, disabled, target_owns)
+            for how in MOVE_HOWS for disabled in (0, 1)
+            for target_owns in ('nothing', 'plain', 'mover')]
+
+
+def run_move_case(case):
+    how, disabled, target_owns = case
+    envx = Env()
+    envx.log = []
+    w = desper.World()
+    m = Mover(envx, 'm')
+    other = Mover(envx, 'o')
+    plain = type('Plain', (), {})()
+    w.create_entity(m, entity_id=1)
+    if target_owns == 'plain':
+        w.create_entity(plain, entity_id=2)
+    elif target_owns == 'mover':
+        w.create_entity(other, entity_id=2)
+    m.target = 2
+    if disabled:
+        w.dispatch_enabled = False
+    del envx.log[:]
+    try:
+        if how == 'remove':
+            w.remove_component(1, Mover)
+        elif how == 'delete_now':
+            w.delete_entity(1, immediate=True)
+        elif how == 'deferred':
+            w.delete_entity(1)
+            w.process(0.5)
+        elif how == 'replace_add':
+            w.add_component(1, Mover(envx, 'new'))
+        elif how == 'replace_create':
+            w.create_entity(Mover(envx, 'new'), entity_id=1)
+        else:
+            w.create_entity(plain, entity_id=3)
+            w.delete_entity(3, immediate=True)
+            w.remove_component(1, Mover)
+        if disabled:
+            w.dispatch_enabled = True
+    except Exception as exc:
+        raise Violation('op_raised', f'{case}: {exc!r}', op=how)
+    # m was detached from entity 1 and (by its own callback) attached to 2
+    owners = [e for e, c in w.get(Mover) if c is m]
+    counts = collections.Counter((r[0], r[1]) for r in envx.log)
+    if owners != [2]:
+        raise Violation('moved_component_is_attached',
+                        f'{case}: m is attached to {owners}, its on_remove '
+                        f'attached it to entity 2; log {envx.log}', how=how)
+    if counts[('m', 'on_remove')] != 1 or counts[('m', 'on_add')] != 1:
+        raise Violation('callbacks_exactly_once',
+                        f'{case}: m got on_remove x'
+                        f'{counts[("m", "on_remove")]} and on_add x'
+                        f'{counts[("m", "on_add")]} for one detach and one '
+                        f'attach; log {envx.log}', op=how,
+                        missing=[], extra=[])
+    if target_owns == 'mover' and (counts[('o', 'on_remove')] != 1
+                                   or w.is_handler(other)):
+        raise Violation('registered_exactly_while_attached',
+                        f'{case}: the component m replaced on entity 2 got '
+                        f'on_remove x{counts[("o", "on_remove")]}, '
+                        f'is_handler = {w.is_handler(other)}',
+                        kind='Mover', stale=True)
+    del envx.log[:]
+    w.dispatch('ping', 7)
+    heard = sorted(r[0] for r in envx.log if r[1] == 'ping')
+    want = sorted(c.label for e, c in w.get(Mover))
+    if not w.is_handler(m) or heard != want:
+        raise Violation(
+            'registered_exactly_while_attached',
+            f'{case}: after its on_remove attached it to entity 2, '
+            f'is_handler(m) = {w.is_handler(m)}; a probe event reached '
+            f'{heard}, attached listeners are {want}', kind='Mover',
+            stale=False, moved_by_its_own_on_remove=True)
+    return {'calls': 4, 'hits': {'component_moves_itself_in_on_remove': 1},
+            'key': repr(case)}
+
+
 def run(tier, rep):
     rep.rule = RULE
     rep.assumptions += [
@@ -257,6 +369,12 @@ def run(tier, rep):
                      readd_attached_instance=1)
     for name, (driver, kw) in drivers(tier).items():
         kernel.explore(driver, rep, part=name, params=driver.params(), **kw)
+    rep.require_hits(component_moves_itself_in_on_remove=1)
+    kernel.enumerate_cases(run_move_case, move_cases(), rep,
+                           'moves-itself-on-remove',
+                           params=dict(how=MOVE_HOWS,
+                                       target_owns=('nothing', 'plain',
+                                                    'mover')))
     rep.require_hits(fault_raise=1, fault_redisable_attach=1)
     kernel.enumerate_cases(run_release_case, release_cases(tier), rep,
                            'release-faults',
@@ -265,6 +383,12 @@ def run(tier, rep):
 
 
 def replay(rec):
+    if rec['part'] == 'moves-itself-on-remove':
+        try:
+            run_move_case(kernel.totuple(rec['case']))
+        except Violation as v:
+            return v
+        return None
     if rec['part'] == 'release-faults':
         try:
             run_release_case(kernel.totuple(rec['case']))
